@@ -503,6 +503,13 @@ func (C25H) Execute(t *testing.T, sc *core.Scenario) *core.Result {
 		}
 		verify(step, op.Kind)
 	}
+	// the engine is closed here (not only in the deferred Close) so that a panic of its shutdown path
+	// is seen and counted; it is outside the property
+	panicsBefore := EngineClosePanics
+	w.Close()
+	if EngineClosePanics > panicsBefore {
+		res.Probe("engine_close_panicked")
+	}
 	res.Ops = len(b.Ops)
 	res.LogHash = sig.Sum()
 	if compared > 0 {
